@@ -4,7 +4,7 @@
    Clean(t) - by a frame argument on the walk: the walk to [n] in the new heap makes the same lookups
    as in the old one up to the single lookup that failed there, which now finds the new link.  (The
    implementation tests its link budget BEFORE the no-follow test of the final component, so a path
-   that already crossed 64 links answers ELOOP: the second disjunct.) *)
+   that already crossed 40 links answers ELOOP: the second disjunct.) *)
 From Avfs Require Import Base PathModel PathSpec PathProofs PathCleanProofs PathIterProofs.
 From Avfs Require Import MemFS MemFile World Posix WalkBridge WalkSym WalkBudget.
 
@@ -252,13 +252,15 @@ Theorem nofollow_final (s : fsys) (sv : sview) (cs : list str) (par n : nat) (na
   klookup s sv false false (abs_path cs) = WNode par LNorm name n -> get h n = Some (NSym t m) ->
   sr_err (search_node s v (abs_path cs) SlLstat) <> EFuel ->
   let r := search_node s v (abs_path cs) SlLstat in
-  sr_err r = EFileExists /\ sr_child r = Some n /\ sr_parent r = Some par /\ pi_part (sr_pi r) = name.
+  sr_child r = Some n /\ sr_parent r = Some par /\
+  ((sr_err r = EFileExists /\ pi_part (sr_pi r) = name) \/ sr_err r = ETooManySymlinks).
 Proof.
   intros v h Hos Hwf Hlc Hrd Hg HK Hgn Hnf r.
   pose proof (sym_bridge_lookup s sv SlLstat cs Hos Hwf Hlc Hrd Hg) as H. cbv zeta in H.
   change (follow_of SlLstat) with false in H. rewrite HK in H.
-  specialize (H ltac:(discriminate) ltac:(discriminate) Hnf). cbn [walk_rel] in H.
-  destruct H as (H1 & H2 & _ & _ & _ & H4). destruct (H4 eq_refl) as (H5 & H6).
-  destruct (at_name_views _ _ _ _ _ _ (H6 eq_refl)) as (H7 & _).
-  split; [exact H1|]. split; [exact H2|]. split; [exact H5|exact H7].
+  destruct (H ltac:(discriminate) Hnf) as [B|(_ & B1 & par' & name' & n' & t' & m' & B2 & _ & B3 & B4)].
+  - cbn [walk_rel] in B. destruct B as (H1 & H2 & _ & _ & _ & H4). destruct (H4 eq_refl) as (H5 & H6).
+    destruct (at_name_views _ _ _ _ _ _ (H6 eq_refl)) as (H7 & _).
+    split; [exact H2|]. split; [exact H5|]. left. split; [exact H1|exact H7].
+  - injection B2 as <- <- <-. split; [exact B3|]. split; [exact B4|]. right. exact B1.
 Qed.
